@@ -143,9 +143,28 @@ def controller_cycle(stack, op, fresh_m=None):
 # checks
 # ---------------------------------------------------------------------------
 def draw(target, kind, args):
+    """
+    One seeded sample.  The times (and parameters) go in as the caller's
+    numpy arrays in some of the argument sets; they must come back unchanged.
+    """
+    as_array = bool(args.get('arrays'))
+    times = np.array(args['times']) if as_array else list(args['times'])
+    before = np.array(times)
+    try:
+        return _draw(target, kind, args, times)
+    finally:
+        if not (np.array(times).shape == before.shape
+                and np.array_equal(np.array(times), before)):
+            raise Violation(
+                'table.argument', 'times_modified',
+                '%s.sample changed the caller\'s times from %s to %s' % (
+                    kind, before.tolist(), np.array(times).tolist()), None)
+
+
+def _draw(target, kind, args, times):
     if kind in ('pred',):
         return target.sample(
-            args['parameters'], args['times'], n_samples=args['n_samples'],
+            args['parameters'], times, n_samples=args['n_samples'],
             seed=args['seed'], return_df=args['return_df'],
             include_regimen=True)
     if kind in ('pp', 'cpp'):
@@ -153,19 +172,19 @@ def draw(target, kind, args):
         if args.get('covariates') is not None:
             kw['covariates'] = np.array(args['covariates'])
         return target.sample(
-            args['pop_parameters'], args['times'],
+            args['pop_parameters'], times,
             n_samples=args['n_samples'], seed=args['seed'],
             return_df=args['return_df'], include_regimen=True, **kw)
     if kind == 'cpred':
         return target.sample(
-            args['parameters'], args['times'], n_samples=args['n_samples'],
+            args['parameters'], times, n_samples=args['n_samples'],
             seed=args['seed'], return_df=args['return_df'],
             include_regimen=True)
     if kind == 'prior':
-        return target.sample(args['times'], args['n_samples'], args['seed'],
+        return target.sample(times, args['n_samples'], args['seed'],
                              include_regimen=True)
     if kind in ('post', 'pam'):
-        return target.sample(args['times'], args['n_samples'],
+        return target.sample(times, args['n_samples'],
                              args.get('individual'), args['seed'],
                              include_regimen=True)
     raise ValueError(kind)
@@ -302,12 +321,51 @@ def joint_row(ds, names, individual, vec):
     return False
 
 
+def check_outputs_argument(scenario, world):
+    """
+    Two routes to the same predictive model: `outputs=` in the constructor
+    (documented to map the error models to the outputs) and `set_outputs` on
+    the mechanistic model beforehand.  Same seed -> the same table.
+    """
+    import chi
+    r = scenario['recipes']
+    if not r.get('outputs_arg') or len(r['errors']) < 2:
+        return
+    m1 = zoo.build_mech(dict(r['mech']))
+    m2 = zoo.build_mech(dict(r['mech']))
+    perm = list(m1.outputs())[::-1]
+    if len(set(perm)) != len(perm) or perm == list(m1.outputs()):
+        return
+    errs = [zoo.build_error(e) for e in r['errors']][::-1]
+    a = call(chi.PredictiveModel, m1, errs, outputs=perm)
+    m2.set_outputs(perm)
+    b = chi.PredictiveModel(m2, errs)
+    if is_exc(a):
+        raise Violation('outputs_argument', 'raises', '%r\n%s' % (a, a.tb),
+                        -1)
+    n = b.n_parameters()
+    x = [0.5 + 0.07 * i for i in range(n)]
+    ta = call(a.sample, x, [1.0, 2.5], n_samples=3, seed=4, return_df=True)
+    tb = call(b.sample, x, [1.0, 2.5], n_samples=3, seed=4, return_df=True)
+    if list(a.get_parameter_names()) != list(b.get_parameter_names()) or (
+            not identical(ta, tb)):
+        raise Violation(
+            'outputs_argument', 'differs_from_set_outputs',
+            'PredictiveModel(m, errs, outputs=%s) and set_outputs(%s) '
+            'followed by PredictiveModel(m, errs):\n names %s\n   vs  %s\n'
+            ' table %s\n   vs  %s' % (
+                perm, perm, a.get_parameter_names(), b.get_parameter_names(),
+                short(ta, 300), short(tb, 300)), -1)
+    world.probe('outputs_argument_checked')
+
+
 # ---------------------------------------------------------------------------
 # interpreter
 # ---------------------------------------------------------------------------
 def run(scenario, world):
     import chi
     main = Stack(scenario)
+    check_outputs_argument(scenario, world)
     triples = []
     prev = 'init'
     fresh_cache = {}
@@ -587,6 +645,7 @@ def generate(rng, index, tier):
                              'draws': rng.randint(2, 4), 'ids': ['a', 'b'],
                              'pooled': sorted(rng.sample(
                                  range(4), rng.choice([0, 0, 1, 2])))},
+               'outputs_arg': rng.random() < 0.5,
                'weights': rng.choice([[0.5, 0.5], [0.3, 0.7], [1.0, 0.0],
                                       [0.0, 2.0], [0.3, 0.3, 0.4],
                                       [0.5, 0.0, 0.5], [1.0, 1.0, 2.0]])}
@@ -608,6 +667,7 @@ def generate(rng, index, tier):
             rng, n_par - n_mech, 0.05, 0.4),
             'pop_parameters': pop_point(),
             'times': ts, 'n_samples': rng.randint(1, 5),
+            'arrays': rng.random() < 0.5,
             'seed': rng.randint(0, 10 ** 6),
             'return_df': rng.random() < 0.7,
             'individual': rng.choice(['a', 'b', None])}
